@@ -385,6 +385,10 @@ func TestVerifC05(t *testing.T) {
 	if only == "" || only == "B" {
 		c05rPart(t, res, &count)
 	}
+	// ---- W: a renewal racing the lease restore of a restart (c05w_test.go)
+	if i, _ := vout.Shard(); i == 1 && (only == "" || only == "W") {
+		c05wPart(t, res)
+	}
 	// ---- Z: seal / unseal transitions of a namespace with its own seal (c05z_test.go)
 	if only == "" || only == "Z" {
 		c05zPart(t, res, &count)
